@@ -21,7 +21,7 @@ RULE = ("seeded histories over 2-4 objects on one resource and up to 4 retained 
         "non-trivial = ops issued through >= 2 different handles incl. >= 1 retained child.")
 ASSUMPTIONS = ["Redis/MongoDB/Zarr are in-process fakes"]
 STRATA = ["clean", "child_clear_reset", "collide"]
-PER = {"quick": {"clean": 50, "child_clear_reset": 40, "collide": 10},
+PER = {"quick": {"clean": 250, "child_clear_reset": 200, "collide": 40},
        "thorough": {"clean": 1200, "child_clear_reset": 800, "collide": 150}}
 STEPS = {"quick": 30, "thorough": 50}
 
